@@ -69,7 +69,7 @@ def extracted_store(repo):
 
 class C07(Prop):
     id = "C07"
-    props_file = ["Props/C07.v", "Props/C07_Bridge.v"]
+    props_file = ["Props/C07.v", "Props/C07_Bridge.v", "Props/C07_Examples.v"]
     coq_imports = ["From ONL Require Import Base.Cmp Res.Heap Res.ContainerStore Res.ContainerStoreObs."]
     n_quick = 3000
     n_thorough = 40000
